@@ -10,9 +10,16 @@ Space
   end points  E = {-inf, -5, -2, -1, -0.3, -0.05, -1e-3, 0, 1e-3, 0.05, 0.3, 1, 2, 5, +inf}; all 105 pairs a < b
               (the design's eleven points plus +-0.05 and +-5: a finite end far from the origin is what exposes a
               quadrature fall-back that misses the mass at the origin)
-  edges       six more Levy models at the edges of the parameter space (EDGE_SPECS): HEM with p = 1 (one-sided jumps),
-              VG with theta = 0 (lambda_m == lambda_p) and a strongly skewed VG, Merton with the jumps centred far from the
-              origin / spread widely around it, CGMY with g = 1, m = 50
+  edges       more Levy models at the edges of the parameter space, each fresh, as "reinit" twin and after a dill round trip:
+              EDGE_SPECS      HEM with p = 1 (one-sided jumps), VG with theta = 0 (lambda_m == lambda_p) and a strongly skewed
+                              VG, Merton with the jumps centred far from the origin / spread widely around it, CGMY g = 1, m = 50
+              WIDE_SPECS      jump laws so wide that the mass at the integer end points 1, 2, 5 is a sizeable part of the total
+                              (Merton sigma_j = 0.6 and 3, HEM eta = 1.5 / 0.8, VG sigma = nu = 1 and nu = 50, CGMY g, m ~ 1):
+                              a term of an antiderivative dropped / truncated far from the origin is visible only there
+              BOUNDARY_SPECS  boundary values the setters accept or the smallest values next to a rejected one: CGMY with
+                              g == 0, m == 0, both (no damping on a side; y = 0, 0.5, 1.2, 1.5; thorough: y = -0.5, 0, 1 too),
+                              g = 1e-3, c = 1e-8; HEM p = 1e-9, intensity = 0; Merton sigma_j = 1e-3 (mu_j = 0 and mu_j = 0.3),
+                              intensity = 0; VG nu = 1e-3 and sigma = 1e-3
   histories   every model of the menu is judged as freshly constructed AND as reached through each construction history
               ("via", see `_build`); the property quantifies over models, not over how they were built:
                 reinit       mc.alphabets.with_reinit: donor parameter object deep-copied, every attribute re-assigned,
@@ -23,17 +30,38 @@ Space
                 after-other  a second object of the same class with other values constructed and used between the
                              construction and the use of the judged one (class attributes, module-level caches)
                 deepcopy     the model is used, deep-copied, the copy is judged
-              (the edge models: fresh and reinit only). "Used" = every route of n and n+1 on six intervals of E away from the
+                dill         the model is used, sent through dill.dumps / loads (the copies the pool workers get), then the
+                             ORIGINAL is re-parametrised (every attribute re-assigned, initialisation()) and used; the copy is
+                             judged (quick: Levy models; thorough: all)
+                int-params   ARGUMENT FORM of the parameters: every integer-valued parameter handed to the constructor as a
+                             Python int (quick: the first such spec per family / branch of y; thorough: every such spec)
+              (the edge models: fresh, reinit and dill only). "Used" = every route of n and n+1 on six intervals of E away from the
               origin (four more touching / containing it for n >= 2), on the measure and on a truncated deep copy.
   n           0..5, each through every public route that serves it:
                 n=0  integrate, integrate_against_xn(n=0), LevyModel.mass with scalars and with one-element arrays
                 n=1  integrate_against_x, integrate_against_xn(n=1)
                 n=2  integrate_against_xx, integrate_against_xn(n=2)
                 n>=3 integrate_against_xn(n)
+              directly constructed models also n = 8 (quick: Levy models) and n = 12 (thorough); not the models marked
+              "boundary" or with a restricted "ns"
+  arg forms   the usual form of an end point is a Python float. On every route, after the sweep, the same interval is handed
+              over as: Python ints, numpy int64, int / float mixed (the library's own `integrate_against_x(0, b1)`), numpy
+              float64, 0-d float and 0-d int arrays, by keyword, and with the end point 0.0 written -0.0; `mass` gets the Real
+              ones; the array form of `mass` gets lists, tuples and integer arrays. Integer forms: every pair of E they apply
+              to; float-like forms: FORM_PAIRS in quick, every pair in thorough. Oracle: the value of the usual form (same
+              tolerance as `value`); a form that raises where the usual form returned is a violation; containers handed over
+              (lists, arrays) must be unchanged after the call. Also on the truncated measure (first menu item and every item
+              with a truncation form). Keys `C09:argform:...:form=<form>`.
+  ties        every route on the degenerate interval [e, e] for every finite e of E must return 0 (e = 0: only where both
+              sides are integrable at 0; a route that RAISES on [0, 0] is counted `tie_at_origin_raises`, not judged)
   truncations through LevyModel.truncate_levy_measure, two construction modes:
                 inplace   a model built anew (through the same history) is truncated
                 deepcopy  the judged, USED model is deep-copied, the copy truncated and its representation set to TILDE
                           (the sequence of MarkovChainProcess.__init__)
+              and, per item, the ARGUMENT FORM of the interval handed to truncate_levy_measure (usual: tuple of Python floats):
+              tuple of Python ints / numpy ints (the clamped end points are then integers), tuple of numpy floats (what the
+              library passes: grid.truncations[0]), list, float array, integer array; the container handed over must be
+              unchanged afterwards. Keys carry `:tform=<form>`.
               single truncations (-0.5,0.7), (-2,1), (0.1,0.4) [thorough: also (-0.3,2) and (-inf,0.3)] and NESTED ones
               (truncate_levy_measure applied to an already truncated model; the truncation interval is the intersection):
               inner inside outer, partial overlap, disjoint (empty) [thorough: two more orders].
@@ -42,7 +70,9 @@ Space
               and 2 by copy.
   tools       rpylib.tools.integral.integral_xn_exp_minus_x(n, a, b, alpha) for alpha in {0.1, 0.7, 2.4, 7}, n <= 5, same E;
               each (alpha, n) twice: every interval evaluated alone ("fresh"), and with the same interval evaluated for
-              another alpha, another n, the same arguments and alpha/2 just before ("interleaved": a remembered result)
+              another alpha, another n, the same arguments and alpha/2 just before ("interleaved": a remembered result);
+              fresh pass also n in {8, 13} and the argument forms of the helper (usual: keywords, Python floats): end points as
+              ints / numpy ints / mixed / numpy floats / 0-d arrays / -0.0, positional call, integer alpha as int, n as numpy int
 
 Oracle
   value       quadrature of x^n nu(x) with nu = the model's own __call__ (mc.oracle.integrate_density) on the elementary
@@ -66,7 +96,9 @@ Scope ("on which they are finite")
   finite variation: n >= 1; otherwise n >= 2; cross-checked against the Blumenthal-Getoor index) AND from the density itself:
   the local exponent beta = log2(nu(eps/2)/nu(eps)) - 1 at eps = 1e-8 gives integrability iff n > beta (margin 0.1; the
   lattice has no y within 0.1 of an integer other than the integers themselves). Where both agree that the integral
-  diverges the interval is outside the alphabet. Where the flags say "divergent" but the density is integrable (CGMY with
+  diverges the interval is outside the alphabet. The same at +-infinity: the density's exponent there (log2(nu(X)/nu(2X)) - 1 at
+  X = 1e8; infinite for every damped side) gives integrability of |x|^n nu on a half-line iff n < exponent - 0.1 (only CGMY with
+  g == 0 / m == 0 has a power-law tail; counted `scope_tail_moment_diverges`). Where the flags say "divergent" but the density is integrable (CGMY with
   -1 <= y < 0: `jump_of_finite_activity` is `y < -1` although the mass at 0 is finite for every y < 0) the interval is in
   scope - the statement is about the integral, which is finite - and the violation keys carry the suffix
   `:flags-say-divergent` so that they are triaged on their own. Where the flags say "finite" but the density is not
@@ -84,9 +116,22 @@ Tolerances
 Violation keys of a model reached through a history end in `:via=<history>`; truncated keys carry `:nested` and / or
 `:copy-then-truncate`; tools keys of the second pass end in `:interleaved`.
 
-Not covered / outside the alphabet: a > b; a = b; intervals on which the n-th moment diverges; odd n sign on straddling
-  intervals; parameter values and end points off the lattice; n > 5; g = 0 or m = 0 in CGMY; p = 0 in HEM and mu_j < 0 in
-  Merton (rejected by the parameter setters); a model whose parameter object is mutated AFTER the model was constructed and
+Boundary models (CGMY with g == 0 or m == 0, spec flag "boundary"): several closed forms of the library degenerate there
+  (integrate_against_x: 0.0 ** negative raises ZeroDivisionError for y < 1; mass for y = 0 and first moment for y = 1:
+  exp1(0) - exp1(0) = NaN). A route that raises ZeroDivisionError / OverflowError or returns NaN on such a model is counted
+  `boundary_route_degenerate` and noted, never alarmed; every finite value is judged like any other (the second moment on
+  bounded intervals, the mass for y != 0, the first moment for y > 1, all n >= 3).
+
+Not covered / outside the alphabet: a > b; [0, 0] where a route raises; [e, e] with e infinite; intervals on which the n-th
+  moment diverges (at 0 or in a power-law tail); odd n sign on straddling intervals; parameter values and end points off the
+  lattice; n > 5 except 8 / 12 on directly constructed models; one-element arrays / lists as end points of the measure routes
+  and 0-d arrays for `mass` (rejected by the unchanged tree: TypeError in scipy quad, IndexError); float32 end points (not the
+  same numbers); a list / array handed to truncate_levy_measure and modified by the caller afterwards (the measure keeps the
+  object it was given; the statement is silent); copy.copy of a model (shares the triplet by construction); Merton with
+  sigma_j = 1e-3 and mu_j = 0.3 for n >= 3 and CGMY with g = 1e-3 for n >= 8 ("ns" of the spec: the generic quadrature
+  fall-back misses a narrow law away from its split points 0, +-1 / loses accuracy on a tail of length 1/g; recorded
+  weaknesses, reported with a proposed fix); HEM with p > 1 (accepted by the setter, not a measure); p = 0 in HEM, mu_j < 0
+  in Merton, sigma = 0 in VG, eta1 = 1 in HEM (rejected by the setters / constructors); a model whose parameter object is mutated AFTER the model was constructed and
   that is used without being rebuilt (the library always constructs a new model from the updated object: see the comment
   in run_default_calibration); intermediate models of the "calib" history are used but not judged (a constructor that
   raises there is counted as history_intermediate_model_raises and noted).
@@ -108,8 +153,10 @@ PID = "C09"
 LEVEL = "exploration"
 RULE = (
     "complete product (models x construction histories) x n x routes x all pairs a<b of 15 end points x truncation menu "
-    "(single and nested truncations, in place and copy-then-truncate; plus all triples for additivity, plus the helper "
-    "integral for all alpha x n x pairs, fresh and interleaved with other arguments); a case (model, history, n) is "
+    "(single and nested truncations, in place and copy-then-truncate, the truncation interval in every argument form; plus all "
+    "triples for additivity, plus every argument form of the end points on every route against the usual form, plus the "
+    "degenerate intervals, plus the helper integral for all alpha x n x pairs, fresh and interleaved with other arguments and "
+    "in every argument form); models = menu M1 + edge, wide-jump and boundary-parameter models; a case (model, history, n) is "
     "non-trivial when at least one library value was compared with the quadrature of the model's own density; distinct = "
     "distinct case dict"
 )
@@ -121,6 +168,10 @@ ASSUMPTIONS = [
     "the construction histories use only public operations in the order the library's calibration helpers and "
     "MarkovChainProcess use them (deepcopy of a parameter object, attribute assignment, initialisation(), model constructor, "
     "deepcopy of a model, truncate_levy_measure, set_representation); intermediate models of a history are used, not judged",
+    "argument forms: only forms the unchanged tree accepts are enumerated (scalars of the numeric tower, numpy scalars, 0-d arrays, "
+    "keywords; sequences only for the array form of mass); the oracle is the value of the usual form (Python floats)",
+    "CGMY without damping on a side (g == 0 / m == 0): a route that raises ZeroDivisionError / OverflowError or returns NaN is "
+    "counted (boundary_route_degenerate), not judged; finite values are judged",
 ]
 CHUNK = 1
 
@@ -164,6 +215,7 @@ EDGE_SPECS = [
     {"family": "merton", "exp": False, "params": {"sigma": 0.1, "sigma_j": 0.5, "mu_j": 0.2, "intensity": 0.5}},
     {"family": "cgmy", "exp": False, "params": {"c": 2.0, "g": 1.0, "m": 50.0, "y": 0.5}},
 ]
+NS_SMALL = [0, 1, 2, 3, 4, 5]  # "ns" of a spec that is not taken to the larger moment orders
 # wide jump laws: the mass far from the origin (at the integer end points 1, 2, 5 of E) is a sizeable part of the total, so
 # that a term of an antiderivative that is dropped / truncated there is visible (the menu M1 has its jumps within +-0.3)
 WIDE_SPECS = [
@@ -187,7 +239,7 @@ BOUNDARY_SPECS = [
     {"family": "cgmy", "exp": False, "boundary": True, "params": {"c": 1.0, "g": 15.0, "m": 0.0, "y": 1.2}},
     {"family": "cgmy", "exp": False, "boundary": True, "params": {"c": 0.3, "g": 0.0, "m": 0.0, "y": 0.5}},
     {"family": "cgmy", "exp": False, "boundary": True, "params": {"c": 0.3, "g": 6.0, "m": 0.0, "y": 0.0}},
-    {"family": "cgmy", "exp": False, "params": {"c": 1.0, "g": 1e-3, "m": 20.0, "y": 1.5}},
+    {"family": "cgmy", "exp": False, "ns": NS_SMALL, "params": {"c": 1.0, "g": 1e-3, "m": 20.0, "y": 1.5}},
     {"family": "cgmy", "exp": False, "params": {"c": 1e-8, "g": 15.0, "m": 20.0, "y": 0.5}},
     {"family": "hem", "exp": False, "params": {"sigma": 0.1, "p": 1e-9, "eta1": 10.0, "eta2": 40.0, "intensity": 5.0}},
     {"family": "hem", "exp": False, "params": {"sigma": 0.1, "p": 1.0, "eta1": 10.0, "eta2": 40.0, "intensity": 0.0}},
@@ -204,10 +256,11 @@ BOUNDARY_SPECS_THOROUGH = [
     {"family": "cgmy", "exp": False, "boundary": True, "params": {"c": 1.0, "g": 15.0, "m": 0.0, "y": 0.5}},
     {"family": "cgmy", "exp": False, "boundary": True, "params": {"c": 1.0, "g": 15.0, "m": 0.0, "y": 1.0}},
     {"family": "cgmy", "exp": False, "boundary": True, "params": {"c": 0.3, "g": 0.0, "m": 0.0, "y": 1.5}},
-    {"family": "cgmy", "exp": False, "params": {"c": 1.0, "g": 1e-3, "m": 1e-3, "y": 0.5}},
+    {"family": "cgmy", "exp": False, "ns": NS_SMALL, "params": {"c": 1.0, "g": 1e-3, "m": 1e-3, "y": 0.5}},
 ]
 NS = [0, 1, 2, 3, 4, 5]
-NS_TOOLS_LARGE = [8, 13]  # tools only: beyond every small-integer case of the helper
+NS_TOOLS_LARGE = [8, 13]  # tools: beyond every small-integer case of the helper
+NS_MODEL_LARGE = [8, 12]  # models: directly constructed ones only (quick: 8, Levy models; thorough: both, every fresh model)
 ALPHAS = [0.1, 0.7, 2.4, 7.0]
 
 # ---- argument forms ---------------------------------------------------------------------------------------------------
@@ -291,7 +344,10 @@ def cases(tier):
     short = (menu(truncs[:1], nested[1:2], [[truncs[0]]], tforms_short) if not thorough
              else menu(truncs[:3], nested[:3], [[truncs[0]], nested[1]], tforms_short))
     for spec in variants:
-        for n in spec.get("ns", NS):
+        ns = list(spec.get("ns", NS))
+        if not spec.get("via") and "ns" not in spec and not spec.get("boundary") and (thorough or not spec.get("exp")):
+            ns += NS_MODEL_LARGE if thorough else NS_MODEL_LARGE[:1]
+        for n in ns:
             out.append({"sub": "model", "model": spec, "n": n, "ends": "wide", "forms": "all" if thorough else "quick",
                         "trunc_menu": short if spec.get("via") else full})
     return out
@@ -410,6 +466,12 @@ def _convert(form, a, b):
     if form == "tuple":
         return (a,), (b,)
     raise ValueError(form)
+
+
+def _same_items(x, y):
+    import numpy as np
+
+    return bool(np.array_equal(np.asarray(x), np.asarray(y))) and getattr(x, "dtype", None) == getattr(y, "dtype", None)
 
 
 def _forms_of(route):
@@ -887,6 +949,12 @@ def _argforms(sh, model, nu, route, n, vals, E, PAIRS, fmode, scale, who, label,
             sh.count("argument_form_comparisons")
             sh.cls(f"argform:{form}")
             key = f"C09:argform:{who}:%s:form={form}:n={n}:{ivclass(a, b)}{ksfx}{suffix(a, b)}"
+            if form in ("list", "int-array", "0d", "0d-int"):  # the callee must leave the caller's containers as they were
+                again = _convert(form, a, b)
+                sh.count("argument_unmodified_checks")
+                if not all(type(x) is type(y) and _same_items(x, y) for x, y in zip(conv, again)):
+                    sh.violation(key % "argument-modified", f"{label}: {route} over [{a}, {b}]: the arguments handed over as {form} "
+                                 f"are {conv!r} after the call", {"a": a, "b": b, "n": n, "route": route, "form": form})
             if kind != "ok":
                 sh.violation(key % kind, f"{label}: {route} over [{a}, {b}] with the end points as {form} {kind}; as Python floats "
                              f"it returns {v0!r}", {"a": a, "b": b, "n": n, "route": route, "form": form, "usual": v0})
@@ -947,7 +1015,10 @@ def _truncated(sh, spec, base_model, base_cache, fam, label, n, Ts, mode, fin, s
     handed = [_trunc_arg(t, tform) for t in Ts]  # what the caller hands over ...
     kept = [copy.deepcopy(h) for h in handed]  # ... and a copy taken before
     for h in handed:
-        tm.truncate_levy_measure(h)
+        if tform == "npfloat":  # the library's own call: keyword, tuple of numpy floats
+            tm.truncate_levy_measure(truncations=h)
+        else:
+            tm.truncate_levy_measure(h)
     if mode == "deepcopy":  # the whole sequence of MarkovChainProcess.__init__: copy, truncate, change the representation
         try:
             from rpylib.model.levymodel.levymodel import LevyRepresentation
